@@ -138,6 +138,21 @@ func (a *Anchors) inferFn(role string) *ssa.Function {
 				return f
 			}
 		}
+	case "sql.eolComment":
+		// the only module function that searches for a line feed with IndexByte
+		var found []*ssa.Function
+		for _, fn := range p.SourceFuncs(nil) {
+			for _, ci := range ssax.Calls(fn) {
+				if f := ci.Common().StaticCallee(); f != nil && f.String() == "strings.IndexByte" && len(ci.Common().Args) == 2 {
+					if k, ok := ssax.ConstInt(ci.Common().Args[1]); ok && k == '\n' {
+						found = append(found, fn)
+					}
+				}
+			}
+		}
+		if len(found) == 1 {
+			return found[0]
+		}
 	case "xss.ctx":
 		root := p.Func("IsXSS")
 		if root == nil {
